@@ -127,7 +127,7 @@ class World:
             if vals:
                 self.enums[d['name']] = vals
         elif k == 'CXXRecordDecl' and d.get('name') and d.get('completeDefinition'):
-            fields, methods, ctors, bits = [], {}, [], 0
+            fields, methods, ctors, bits, bitpos = [], {}, [], 0, {}
             for c in d.get('inner', []):
                 ck = c.get('kind')
                 if ck == 'FieldDecl':
@@ -140,12 +140,13 @@ class World:
                     pos = 0
                     for f in c.get('inner', []):
                         if f.get('kind') == 'FieldDecl' and f.get('isBitfield'):
+                            bitpos[f['name']] = (pos, const_of(f) or 0)      # LSB first (little-endian ABI of GCC/clang)
                             pos += const_of(f) or 0
                             # bits the type itself documents as "reserved" are outside the documented range
                             if comment_text(f).lower() != 'reserved':
                                 bits = pos
             self.records[d['name']] = {'tag': d.get('tagUsed'), 'fields': fields, 'methods': methods, 'ctors': ctors,
-                                       'namedBits': bits}
+                                       'namedBits': bits, 'bitpos': bitpos}
         elif k in ('TypeAliasDecl', 'TypedefDecl') and d.get('name'):
             self.aliases[d['name']] = d['type'].get('desugaredQualType') or d['type']['qualType']
         elif k == 'VarDecl' and d.get('name') and 'const' in d['type'].get('qualType', ''):
@@ -302,6 +303,7 @@ class Eval:
         self.frame = Frame()
         self.msgname = None
         self.accept_cond = None
+        self.cond_bit = None
         self.retval = None
         self.len_min, self.len_max = 0, 223
         self.setup_params()
@@ -493,6 +495,8 @@ class Eval:
             args = [a for a in n.get('inner', []) if a['kind'] != 'CXXDefaultArgExpr']
             if t[0] == 'rec' and self.w.records[t[1]]['tag'] == 'union' and len(args) == 1 and self.union_ctor_identity(t[1]):
                 return self.ev(args[0])
+            if t[0] == 'rec' and self.w.records[t[1]]['tag'] == 'union' and len(args) == 0:
+                return self.union_default(t[1])
             if t[0] == 'rec' and len(args) == 1:
                 return self.ev(args[0])    # copy / move construction
             return Unknown('constructor of ' + str(t))
@@ -526,6 +530,26 @@ class Eval:
             return Fp('opaque', 'constant ' + name)
         return self.cast_to(self.ev(init[0]), t)
 
+    def union_default(self, rname):
+        """value of `T x;` for a status union: the default argument of its value constructor, or the constant its
+        default constructor stores in the integer member"""
+        r = self.w.records[rname]
+        mt = self.w.ty(r['fields'][0][1])
+        if mt[0] != 'int':
+            return Unknown('union default')
+        for c in r['ctors']:
+            ps = [p for p in c.get('inner', []) if p.get('kind') == 'ParmVarDecl']
+            inits = [p for p in c.get('inner', []) if p.get('kind') == 'CXXCtorInitializer']
+            if len(ps) == 1 and self.union_ctor_identity(rname) and ps[0].get('inner'):
+                v = const_of(ps[0])
+                if v is not None:
+                    return cint(v, mt[1], mt[2])
+            if len(ps) == 0 and len(inits) == 1 and inits[0].get('inner'):
+                v = const_of(inits[0])
+                if v is not None:
+                    return cint(v, mt[1], mt[2])
+        return Unknown('union default constructor')
+
     def union_ctor_identity(self, rname):
         r = self.w.records[rname]
         for c in r['ctors']:
@@ -542,7 +566,34 @@ class Eval:
                     return True
         return False
 
+    def union_bit_access(self, n):
+        """X.<bits struct>.<name> of a status union variable X -> (variable name, bit position, width) or None"""
+        mid = n['inner'][0]
+        while mid['kind'] in ('ImplicitCastExpr', 'ParenExpr'):
+            mid = mid['inner'][0]
+        if mid['kind'] != 'MemberExpr':
+            return None
+        base = mid['inner'][0]
+        while base['kind'] in ('ImplicitCastExpr', 'ParenExpr'):
+            base = base['inner'][0]
+        if base['kind'] != 'DeclRefExpr':
+            return None
+        bt = self.w.ty(base['type'])
+        if bt[0] != 'rec' or self.w.records[bt[1]]['tag'] != 'union':
+            return None
+        bp = self.w.records[bt[1]]['bitpos'].get(n['name'])
+        if bp is None:
+            return None
+        return base['referencedDecl']['name'], bp[0], bp[1]
+
     def member(self, n):
+        ub = self.union_bit_access(n)
+        if ub:
+            v = self.read(ub[0])
+            if isinstance(v, Int):
+                t = self.tyn(n)
+                return Int(v.bits[ub[1]:ub[1] + ub[2]], False).resize(t[1] if t[0] == 'int' else 32, t[2] if t[0] == 'int' else False)
+            return v
         base = n['inner'][0]
         while base['kind'] in ('ImplicitCastExpr', 'ParenExpr') and base.get('castKind', 'NoOp') in ('NoOp', 'LValueToRValue'):
             base = base['inner'][0]
@@ -833,6 +884,16 @@ class Eval:
             self.write(name, val)
             return val
         if lhs['kind'] == 'MemberExpr':
+            ub = self.union_bit_access(lhs)
+            if ub:
+                cur = self.read(ub[0])
+                if isinstance(cur, Int) and isinstance(val, Int):
+                    nb = list(cur.bits)
+                    nb[ub[1]:ub[1] + ub[2]] = val.resize(ub[2]).bits
+                    self.write(ub[0], Int(nb, cur.signed))
+                else:
+                    self.write(ub[0], Unknown('write to a named bit of an untranslated value'))
+                return val
             base = lhs['inner'][0]
             while base['kind'] in ('ImplicitCastExpr', 'ParenExpr'):
                 base = base['inner'][0]
@@ -1132,7 +1193,7 @@ class Eval:
         cond, then = parts[0], parts[1]
         els = parts[2] if len(parts) > 2 else None
         # parser guards:  if (N2kMsg.PGN != C) return false;   if (N2kMsg.GetX(Index) != C) return false;
-        if self.mode == 'parse' and self.depth == 0 and els is None:
+        if self.mode == 'parse' and els is None:
             g = self.guard_form(cond, then)
             if g:
                 return None
@@ -1170,7 +1231,11 @@ class Eval:
                     if d:
                         return self.stmt(then)
                     return self.stmt(els) if els is not None else None
-        return self.symbolic_if(st, then, els)
+        self.cond_bit = c.bits[0] if (isinstance(c, Int) and isinstance(c.bits[0], tuple) and c.bits[0][0] == 'p') else None
+        try:
+            return self.symbolic_if(st, then, els)
+        finally:
+            self.cond_bit = None
 
     def whole_uint_param(self, v):
         """name of the unsigned integer parameter whose unmodified value `v` is (zero-extended), else None"""
@@ -1309,10 +1374,23 @@ class Eval:
                 return ('tail', None)
             self.payload = self.payload[:base] + [a if a == b else None for a, b in zip(p1, p2)]
             self.scaled = sc         # a scaled item added in only one branch is not a layout fact
+            cbit = self.cond_bit
             for name in set(v1) | set(v2):
                 a, b = v1.get(name), v2.get(name)
                 if a is not b and not self.same(a, b):
-                    self.frame.vars[name] = Unknown('assigned in a conditional')
+                    sel = None
+                    if cbit is not None and isinstance(a, Int) and isinstance(b, Int) and len(a.bits) == len(b.bits) and a.signed == b.signed:
+                        # value = cond ? a : b, bit by bit: equal bits stay, (1,0) is the condition itself
+                        sel = []
+                        for x, y in zip(a.bits, b.bits):
+                            if x == y:
+                                sel.append(x)
+                            elif x == 1 and y == 0:
+                                sel.append(cbit)
+                            else:
+                                sel = None
+                                break
+                    self.frame.vars[name] = Int(sel, a.signed) if sel is not None else Unknown('assigned in a conditional')
             self.notes.append('conditional merged: differing bits are unk')
             return None
         # parser
@@ -1759,10 +1837,11 @@ def collect(src_dir):
     stats = dict(functions=0, pairs=0, setter_only=0, unpaired_parsers=0)
     results = []
     worlds = stats.setdefault('_worlds', {})
+    nonpure_by_world = []
     for fname in FILES:
         w = World(src_dir, fname)
         worlds[fname] = w
-        check_aliases(w, stats)
+        nonpure_by_world.append((w, check_aliases(w, stats)))
         setters, parsers, others = {}, {}, []
         for fn in w.funcs:
             nm = fn['name']
@@ -1802,6 +1881,9 @@ def collect(src_dir):
                 if j not in used:
                     stats['unpaired_parsers'] += 1
                     stats.setdefault('unpaired_parser_names', []).append(p['name'])
+    seen = set()
+    for w, nonpure in nonpure_by_world:
+        pair_wrappers(w, nonpure, results, stats, seen)
     return results, stats
 
 
@@ -1814,6 +1896,7 @@ def check_aliases(world, stats):
             x = x['inner'][0]
         return x
     pure, other = stats.setdefault('alias_wrappers_pure', []), stats.setdefault('alias_wrappers_not_pure_forwarders', [])
+    nonpure = []
     main_ids = {id(f) for f in world.funcs}
     for name, decls in world.inline.items():
         for fn in decls:
@@ -1835,12 +1918,62 @@ def check_aliases(world, stats):
                     fw = [a.get('referencedDecl', {}).get('name') if a.get('kind') == 'DeclRefExpr' else None for a in args]
                     if re.match(r'(?i)(Set|Parse)N2k(Maretron)?PGN\d+$', cname) and fw == ps:
                         ok = True
-            key = '%s' % name
+            key = '%s %s' % (name, fn['type'].get('qualType', ''))
             if ok:
                 if key not in pure:
                     pure.append(key)
-            elif key not in other and key not in pure:
+            elif key not in other:
                 other.append(key)
+                nonpure.append(fn)
+    return nonpure
+
+
+def pair_wrappers(world, nonpure, results, stats, seen):
+    """inline wrappers that are NOT pure forwarders (flag-style overloads, overloads that drop or default fields) get layouts
+    of their own: the evaluator inlines the function they call. Each is paired with the best-matching function of the
+    opposite role and the same base name (another wrapper, or the main function)."""
+    def base(n):
+        return re.sub(r'^(Set|Parse)', '', n)
+
+    def pnames(fn):
+        return {p.get('name', '').lower() for p in fn.get('inner', []) if p.get('kind') == 'ParmVarDecl' and 'tN2kMsg' not in p['type'].get('qualType', '')}
+    done = set()
+    counter = {}
+    for wf in nonpure:
+        sig = (wf['name'], wf['type'].get('qualType'))
+        if sig in seen:
+            continue
+        seen.add(sig)
+        role = 'set' if wf['name'].startswith('Set') else 'parse'
+        cands = []
+        for name, decls in world.inline.items():
+            if base(name) != base(wf['name']) or name.startswith('Set') == (role == 'set'):
+                continue
+            for fn in decls:
+                ov = len(pnames(fn) & pnames(wf))
+                if ov:
+                    cands.append((ov, -len(pnames(fn) ^ pnames(wf)), id(fn) in {id(x) for x in nonpure}, fn))
+        if not cands:
+            stats.setdefault('wrappers_without_counterpart', []).append(wf['name'])
+            continue
+        other = max(cands, key=lambda c: c[:3])[3]
+        sfn, pfn = (wf, other) if role == 'set' else (other, wf)
+        k = (id(sfn), id(pfn))
+        if k in done:
+            continue
+        done.add(k)
+        probe, err = translate_function(world, sfn, 'set')
+        pgn = probe.pgn if probe is not None and probe.pgn is not None else pgn_of_name(sfn['name'])
+        if pgn is None:
+            stats.setdefault('wrappers_not_translated', []).append('%s: %s' % (sfn['name'], err or 'no PGN'))
+            continue
+        counter[pgn] = counter.get(pgn, 0) + 1
+        rs = build_pairs(world, '%dw%d' % (pgn, counter[pgn]), sfn, pfn, stats)
+        for r_ in rs:
+            r_['notes'].insert(0, 'alias wrapper pair (not pure forwarders): %s / %s' % (sfn['type'].get('qualType', '')[:0] + sfn['name'], pfn['name']))
+            r_['wrapper'] = True
+        results.extend(rs)
+        stats['wrapper_pairs'] = stats.get('wrapper_pairs', 0) + 1
 
 
 def emit_lean(results, gen_dir, stats):
@@ -2078,8 +2211,8 @@ def emit_glue(results, path, worlds):
         names = R['names']
         idx = {n: i for i, n in enumerate(names)}
         w = worlds[R['file']]
-        sfn = [f for f in w.funcs if f is S.fn][0]
-        pfn = [f for f in w.funcs if f is P.fn][0] if P else None
+        sfn = S.fn
+        pfn = P.fn if P else None
         ssc, psc = shallow_scaled(w, sfn), (shallow_scaled(w, pfn) if pfn else {})
         stx = shallow_text(w, sfn)
         problems = []
@@ -2144,7 +2277,9 @@ def emit_glue(results, path, worlds):
                     if c is None:
                         continue
                     i = idx[c]
-                    if ft[0] in ('int', 'enum'):
+                    if ft[0] == 'enum':
+                        par_back.append('  { unsigned int t_ = 0; memcpy(&t_, &%s.%s, sizeof t_ < sizeof %s.%s ? sizeof t_ : sizeof %s.%s); v[%d].i = (long long)t_; }' % (nm, fname, nm, fname, nm, fname, i))
+                    elif ft[0] == 'int':
                         par_back.append('  v[%d].i = (long long)%s.%s;' % (i, nm, fname))
                     elif ft[0] == 'fp':
                         par_back.append('  v[%d].d = %s.%s;' % (i, nm, fname))
@@ -2154,7 +2289,13 @@ def emit_glue(results, path, worlds):
                 continue
             if prm['role'] == 'out':
                 i = idx[canon(nm)]
-                if t[0] in ('int', 'enum'):
+                if t[0] == 'enum':
+                    # read back through memcpy: a parser may store a bit pattern that is no value of the enumeration
+                    # (NA filling of a truncated message); loading it as the enum would trip the sanitizer in the GLUE
+                    par_decl.append('  %s o%d = (%s)0;' % (ctype(q), i, ctype(q)))
+                    par_args.append('o%d' % i)
+                    par_back.append('  { unsigned int t_ = 0; memcpy(&t_, &o%d, sizeof t_ < sizeof o%d ? sizeof t_ : sizeof o%d); v[%d].i = (long long)t_; }' % (i, i, i, i))
+                elif t[0] == 'int':
                     par_decl.append('  %s o%d = (%s)0;' % (ctype(q), i, ctype(q)))
                     par_args.append('o%d' % i)
                     par_back.append('  v[%d].i = (long long)o%d;' % (i, i))
@@ -2217,6 +2358,16 @@ def emit_glue(results, path, worlds):
             s_ = ssc.get(nm) or next((v for k, v in ssc.items() if k.lower() == nm.lower()), None)
             p_ = psc.get(nm) or next((v for k, v in psc.items() if k.lower() == nm.lower()), None)
             tx = stx.get(nm)
+            if R.get('wrapper'):
+                # a wrapper has no Add/Get...Double call of its own: the literals are the ones of the function it forwards to
+                if s_ is None and nm in R['sscaled'] and 'text' in R['sscaled'][nm] and R['info'][nm].get('sfield', {}).get('kind') == 'scaled':
+                    r_ = R['sscaled'][nm]
+                    s_ = (r_['w'], r_['signed'], Decimal(r_['text']))
+                if p_ is None and nm in R['pscaled'] and R['info'][nm].get('pfield', {}).get('kind') == 'scaled':
+                    r_ = R['pscaled'][nm]
+                    p_ = (r_['w'], r_['signed'], Decimal(r_['text']))
+                if tx is None and sf and sf.get('kind') == 'text':
+                    tx = (sf.get('textkind', 'str'), sf['bits'] // 8)
             flines.append('  {"%s", %s, %d, %d, %d, %s, %s, %d, %s, %s, %d, %s, %s, %s, %d, %d, %d}' % (
                 nm, kind, tb, ptb, R['widths'][i], 'true' if f.get('in_setter') and sf else 'false', 'true' if (pf or ptext) else 'false',
                 s_[0] if s_ else 0, 'true' if (s_ and s_[1]) else 'false', cdec(s_[2]) if s_ else '0.0',
@@ -2273,7 +2424,7 @@ def run(src_dir, gen_dir):
                  items_translated=sum(1 for R in results if R['setter_ok']) + sum(1 for R in results if R['parser_ok']))
     skipped = emit_glue(results, os.path.join(VERIF, 'build', 'gen', 'layout_glue.h'), worlds)
     stats['harness_glue_skipped'] = ['%s: %s' % (i, '; '.join(p)) for i, p in skipped]
-    stats['alias_wrappers_not_pure_forwarders'] = sorted(set(stats.get('alias_wrappers_not_pure_forwarders', [])) - set(stats.get('alias_wrappers_pure', [])))
+    stats['alias_wrappers_not_pure_forwarders'] = sorted({x.split(' ')[0] for x in stats.get('alias_wrappers_not_pure_forwarders', [])})
     stats['alias_wrappers_pure'] = len(stats.get('alias_wrappers_pure', []))
     return stats
 
